@@ -240,9 +240,10 @@ def view_of(name):
         return View(b, kids=args[1:], p=[lits[0]])
     if b == "rep_min_max" and len(args) >= 2 and lits[0] is not None and lits[1] is not None:
         return View(b, kids=args[2:], p=lits[:2])
-    if b in TRY:
+    if b in TRY and not internal:
         op, kind = TRY[b]
         return View(op, kids=args, p=[kind])
+    # internal::try_catch_*< Exception, Rules... > and the public try_catch_type_*< Exception, Rules... > name the exception type
     if b in ("try_catch_type_raise_nested", "try_catch_type_return_false") or (internal and b in ("try_catch_raise_nested", "try_catch_return_false")):
         kind = EXC_KIND.get(args[0])
         if kind is None:
